@@ -12,7 +12,7 @@ import (
 )
 
 // prior states of the destination
-var c16Priors = []string{"absent", "older", "unrelated", "basefile"}
+var c16Priors = []string{"absent", "older", "samebytes", "unrelated", "basefile"}
 
 // modes of invocation
 var c16Modes = []string{"default", "user", "path-rel", "path-abs", "path-rel+user", "path-abs+user"}
@@ -31,7 +31,7 @@ func (c c16Case) String() string {
 // CheckC16 runs the full agent x mode x prior-state matrix.
 func CheckC16(tier string) {
 	rep := base.NewReport("C16", tier, "exploration")
-	rep.Rule = "full matrix documented-agent x {default,--user,--path rel,--path abs,--path rel --user,--path abs --user} x prior destination state {absent, older install with odd modes + extra file, unrelated files around, base is a regular file}, umask alternating 022/077/000; plus CLI surface probes (help listing, each documented name accepted, undocumented names rejected). A case is non-trivial when the installer ran to a verdict (exit status observed and tree compared); distinct = distinct (agent,mode,prior) cells."
+	rep.Rule = "full matrix documented-agent x {default,--user,--path rel,--path abs,--path rel --user,--path abs --user} x prior destination state {absent, older install with odd modes + extra file, install with current bytes but other modes and a symlinked file, unrelated files around, base is a regular file}, umask alternating 022/077/000; plus CLI surface probes (help listing, each documented name accepted, undocumented names rejected). A case is non-trivial when the installer ran to a verdict (exit status observed and tree compared); distinct = distinct (agent,mode,prior) cells."
 	rep.Assumptions = []string{
 		"README.md's 'Supported agents' line and 'Default installation paths' list are the documentation oracle",
 		"the embedded tree equals internal/llmsetup/skills/<skill> on disk in the repository working tree",
@@ -130,6 +130,22 @@ func runC16Case(rep *base.Report, cli, scratch string, idx int, c c16Case, skill
 			k++
 		}
 		writeFileMode(filepath.Join(dest, "notes-from-user.txt"), "keep me", 0o600)
+	case "samebytes":
+		// an install whose files already have today's bytes, but other modes,
+		// and one of them is a symlink to an identical file elsewhere
+		k := 0
+		for _, rel := range relFiles(tree) {
+			p := filepath.Join(dest, rel)
+			if k == 1 {
+				elsewhere := filepath.Join(root, "elsewhere", "copy-of-"+filepath.Base(rel))
+				writeFileMode(elsewhere, string(tree[rel]), 0o644)
+				os.MkdirAll(filepath.Dir(p), 0o755)
+				os.Symlink(elsewhere, p)
+			} else {
+				writeFileMode(p, string(tree[rel]), []os.FileMode{0o600, 0o644, 0o444, 0o755}[k%4])
+			}
+			k++
+		}
 	case "unrelated":
 		writeFileMode(filepath.Join(baseDir, "unrelated.txt"), "unrelated", 0o604)
 		writeFileMode(filepath.Join(baseDir, skill+"-backup", "SKILL.md"), "backup", 0o644)
